@@ -118,8 +118,14 @@ def scenario(rng, rich):
         ops.append(["open", "h3", 0, copy.deepcopy(sp)])
     e = rng.choice(edits_for(sp, rng, rich))
     # destination: absent / initialised / handle only
-    dest = rng.choice(["absent", "init", "handle", "init-other-project"])
+    dest = rng.choice(["absent", "init", "handle", "init-other-project", "file"])
     nsp = apply_edit_sp(sp, e)
+    if dest == "file":
+        # a regular file or a dangling link named exactly like the NEW id sits in the workspace: a re-key cannot
+        # move the directory there; it must fail and roll back completely
+        if init and e[0] in ("spset", "spdel", "update", "spassign", "spnest") and W.ref_id(nsp) != W.ref_id(sp):
+            ops.append(["plant", 0, W.ref_id(nsp), rng.choice(["file", "link"])])
+        dest = "absent"
     if dest != "absent":
         p = 1 if (dest == "init-other-project" or e[0] in ("move", "clone")) and rng.random() < 0.7 else 0
         ops.append(["open", "hd", p, nsp])
@@ -131,7 +137,13 @@ def scenario(rng, rich):
     e = list(e)
     if e[0] in ("spset", "spdel", "update", "spassign", "spnest", "move"):
         e[1] = who if (who != "h3" or prov != "byid" or init) else "h1"
+    if prov in ("copy", "copy2", "deepcopy") and rng.random() < 0.2:
+        # a REJECTED assignment first: afterwards the handle and its copies must still belong together
+        ops.append(["spbad", e[1] if e[0] != "clone" else "h1", dict(copy.deepcopy(sp), **{"bad.key": 1})])
     ops.append(e)
+    if e[0] != "clone" and rng.random() < 0.5:
+        # the handle that carried out the change goes on using its document: it belongs to the job as it is now
+        ops.append(["dset", e[1], "after", rng.choice([7, "v"])])
     if e[0] in ("move", "clone"):
         # the handles left behind in the source project (copies made before the move) keep working there:
         # re-create the job, change its state point through them
